@@ -103,6 +103,15 @@ def runImp (prop fS tyS srcS extS implS0 : String) : Result :=
       | .ok r =>
         if ty != .none && !isValue && !(r matches .nil) && Cast.typeOf r != ty then some "import-wrong-raw-type"
         else if (v matches .nil) && !(r matches .nil) then some "nil-imported-as-value"
+        else if prop == "C09" then
+          -- a column with an integer raw type fed with a decimal text (as a JSON string or number): the raw value
+          -- is the integer the text spells, never another one
+          match ty, v, r with
+          | .int _, .str s, .int _ x | .int _, .num s, .int _ x =>
+            (match IntText.parseInt0 s 64 with
+             | some n => if x != n then some "column-holds-another-integer" else none
+             | none => none)
+          | _, _, _ => none
         else if prop == "C11" then
           -- a binary column mapped to a fixed-width type accepts only well-sized payloads and re-emits
           -- exactly the bytes it accepted
